@@ -59,7 +59,7 @@ CLAIMED = {
          "Real sio client (manager + socket) with drawn ReconnectionAttempts 0-5, delay, maximum and jitter against (proto mode) the repository's Engine.IO server under a hand-written Socket.IO layer that records the order on the wire, or (sio mode) the real sio server with handlers attached in the connection handler. Outage of a drawn kind and length (0.2-3x the sum of the back-off delays); plain, volatile and ack-carrying emits before, during and after it and in the connect-pending window. Oracle: each delay between a failure and the next attempt lies in (0, max] and in the jitter band of delay x 2^k (attempts and failures paired per cycle); exactly ReconnectionAttempts failures precede exactly one reconnect_failed and nothing follows it; once reachable again the client connects unless it gave up; non-volatile emits made while not connected arrive exactly once, after the CONNECT packet, in emission order, when the next connection lasts; volatile ones made while disconnected never arrive; nothing arrives twice; Emit never blocks. Side run (input enumeration): duration() for min x max x jitter x attempt number 0..70, 100, 1000, 2^31, 2^32-2 is in (0, max].",
          "§7 C15", TB),
  "C16": ("exploration", "deterministic simulation of seeded concurrent API programs run by the race-detector build of the simulator: race detector (happens-before) + instrumented mutexes with hang watchdog, held-lock audit at quiescence, panic capture",
-         "The worker is the -race build of the same simulator (real library, simulated network and clock, seeded yields at every mutex operation, one P). One plan = 2-16 tasks x 5-40 operations out of 33 kinds over Server, Namespace, BroadcastOperator, ServerSocket, ClientSocket and Manager (emit with and without acknowledgement and time-out, broadcasts with shared argument values, join/leave, SocketsJoin/SocketsLeave/DisconnectSockets/FetchSockets, handler and middleware registration and removal, connect/disconnect/close/open, dynamic namespaces), with event, acknowledgement, connection and disconnect handlers that issue operations themselves. Oracle: no race report whose two accesses both have a repository frame among their top six; no call still pending and no instrumented lock still held 15 s (fake) after the program; no bubble-wide deadlock; no lock misuse; no panic. GOMAXPROCS>1 is not used (it would make runs unrepeatable; the race detector's happens-before analysis does not need parallel execution).",
+         "Mode race: the worker is the -race build of the same simulator (real library, simulated network and clock, seeded yields at every mutex operation, one P) with a harness that is invisible to the detector (no harness mutex, atomic or channel shared between tasks; sockets handed over by atomic publication). Mode locks: the ordinary build with the instrumented-mutex registries on. One plan = 2-16 tasks x 5-40 operations out of 33 kinds over Server, Namespace, BroadcastOperator, ServerSocket, ClientSocket and Manager (emit with and without acknowledgement and time-out, broadcasts with shared argument values, join/leave, SocketsJoin/SocketsLeave/DisconnectSockets/FetchSockets, handler and middleware registration and removal, connect/disconnect/close/open, dynamic namespaces), with event, acknowledgement, connection and disconnect handlers that issue operations themselves. Oracle: no race report whose two accesses both have a repository frame among their top six; no call still pending and no instrumented lock still held 15 s (fake) after the program; no bubble-wide deadlock; no lock misuse; no panic. GOMAXPROCS>1 is not used (it would make runs unrepeatable; the race detector's happens-before analysis does not need parallel execution).",
          "§7 C16", TB),
  "C17": ("exploration", "deterministic simulation: exhaustive request matrix per world under seeded stalls; handshakes racing Server.Close; session-store linearizability (porcupine, set model); plus labelled enumeration of id generation",
          "A raw HTTP peer sends the full matrix (6 methods x 5 EIO values x 4 transports x 4 sid kinds x b64 x j = 1920 requests, shuffled per world) to a real eio server holding one live and one closed session: requests with defects get HTTP 400 + a JSON error whose code is one of the defects present, create no session, leave the live session working (probed every 64 requests); requests without defect are served. closerace: 2-12 polling/WebSocket handshakes at instants around Server.Close with stalls on the store and server paths - afterwards every created session is closed, old sids answer no poll, new handshakes are refused. churn: concurrent open/close/probe histories checked for linearizability against a set, sids unique among live sessions. Side run (input enumeration): 2x10^5 (thorough 10^6) GenerateBase64ID calls distinct.",
